@@ -40,11 +40,14 @@ static void put_all(ptree &p, Rng &r, int ci, int ri, const SolverCfg &s, CallSp
     if ((t == "gmres" || t == "fgmres" || t == "lgmres") && r.coin()) p.put("solver.M", (int)r.pick(std::vector<int>{4, 10}));
 }
 
-// probe estimate of ||P|| (see c01_truthful.cpp)
+// probe estimate of ||P|| (see c01_truthful.cpp): random vectors, the final residual, eight power-iteration steps
 template <class S, class ApplyP> static double probe_norm(const Csr<S> &A, ApplyP applyP, const std::vector<S> &resid) {
-    Rng r(0x5eed ^ A.n); double g = 0; std::vector<S> z(A.n);
-    for (int k = 0; k < 4; ++k) { std::vector<S> v(A.n); if (k < 3) for (auto &e : v) e = S((typename vf::ldtype<S>::real)r.uni(-1, 1)); else v = resid;
-        double nv = (double)vf::norm2_ld(v); if (!(nv > 0) || !std::isfinite(nv)) continue; std::fill(z.begin(), z.end(), S()); applyP(v, z); double nz = (double)vf::norm2_ld(z); if (!std::isfinite(nz)) return std::numeric_limits<double>::infinity(); g = std::max(g, nz / nv); }
+    Rng r(0x5eed ^ A.n); double g = 0; std::vector<S> z(A.n), v(A.n);
+    auto rnd = [&]() { for (auto &e : v) e = S((typename vf::ldtype<S>::real)r.uni(-1, 1)); };
+    auto gain = [&](const std::vector<S> &w) -> double { double nv = (double)vf::norm2_ld(w); if (!(nv > 0) || !std::isfinite(nv)) return 0.0; std::fill(z.begin(), z.end(), S()); applyP(w, z); double nz = (double)vf::norm2_ld(z); return std::isfinite(nz) ? nz / nv : std::numeric_limits<double>::infinity(); };
+    for (int k = 0; k < 4; ++k) { if (k < 3) rnd(); else v = resid; double gk = gain(v); if (!std::isfinite(gk)) return gk; g = std::max(g, gk); }
+    rnd();
+    for (int k = 0; k < 8; ++k) { double gk = gain(v); if (!std::isfinite(gk)) return gk; g = std::max(g, gk); double nz = (double)vf::norm2_ld(z); if (!(nz > 0)) break; for (size_t i = 0; i < A.n; ++i) v[i] = z[i] * S((typename vf::ldtype<S>::real)(1.0 / nz)); }
     return g;
 }
 
@@ -57,7 +60,8 @@ static void monitored(Case &c, const Csr<S> &A, const Cond &K, const ptree &p, c
         auto applyP = [&](const std::vector<S> &r, std::vector<S> &z) { H->apply(r, z); };
         Cond Kc = K; vf::Residual<S> R = vf::residual_ld(A, f, x); Kc.normP = R.finite ? probe_norm(A, applyP, R.r) : std::numeric_limits<double>::infinity();
         if (Kc.normP > 10 * K.normAinv) vf::obs_sum("calls_with_preconditioner_norm_above_10x_inverse_norm");
-        double tru = 0; vf::check_truthful(c, cs, A, f, x0, x, iters, res, Kc, applyP, "", &tru);
+        vf::Rerun<S> rerun = [&](const std::vector<S> &f2, std::vector<S> &x2) { try { auto H2 = build(p); H2->solve(f2, x2); return true; } catch (const std::exception &) { return false; } };
+        double tru = 0; vf::check_truthful(c, cs, A, f, x0, x, iters, res, Kc, applyP, "", &tru, rerun);
         vf::obs_sum("solves"); if (iters >= 1 && std::isfinite(res)) any = true;
         vf::obs_add("cells_covered", p.get<std::string>("precond.coarsening.type") + "+" + p.get<std::string>("precond.relax.type") + "+" + vf::cfg_name(cs.cfg));
         vf::sample("types", J().n("n", A.n).s("cell", p.get<std::string>("precond.coarsening.type") + "+" + p.get<std::string>("precond.relax.type") + "+" + vf::cfg_name(cs.cfg)).n("tol", cs.tol).n("maxiter", cs.maxiter).n("iters", iters).n("reported", res).n("true", tru), 4);
